@@ -1,4 +1,4 @@
-from .common import LEAN_TB, TRANSLATOR_TB
+from .common import LEAN_TB, TRANSLATOR_TB, RUN_LOOP_SCENARIOS
 
 PROP = {
     "id": "C05",
@@ -21,7 +21,11 @@ PROP = {
         "component": "post",
         "quick": {"gen": [(1500, 25)], "enum": [(5,)]},
         "thorough": {"gen": [(30000, 40)], "enum": [(7,)]},
-    }],
+    },
+        # "leaves Pending() and Posted() exact" next to everything else that moves the counter (arming, disarming — also on
+        # descriptors that were closed underneath —, cancelling, closing): the accounting clauses of the event-loop component
+        RUN_LOOP_SCENARIOS],
+    "keys": ["post.*", "loop.pending-differs-from-ledger", "loop.posted-differs-from-ledger", "loop.ledger-pending-differs-from-operations-in-flight"],
     "direct": [{"component": "post", "timeout": 1500}],
     "rule": "trace mode: linearised schedules - goroutine k (k=0..3) calls ioc.Post(h) from its own goroutine and returns, handlers "
             "registered to post further handlers when they run (chains), PollOne on the loop's locked OS thread; observations: which "
